@@ -216,6 +216,21 @@ def check_C06(tier, replay=None):
     if tier == "thorough":
         runs.append(("MC_C06_int_wide", {"Slice": '"int_wide"'}))
     std_flow(R, "MC_C06", runs, "Trace_C06", {}, ("D20", "D21"), ["Agreement", "Emit"])
+    if tier == "thorough":
+        # extra: TLAPS proves the numeric part for all integers (spec/tlaps/FacetsProof.tla)
+        import subprocess, shutil, re
+        work = os.path.join(z.BUILD, "tlaps")
+        shutil.rmtree(work, ignore_errors=True)
+        os.makedirs(work, exist_ok=True)
+        shutil.copy(os.path.join(z.SPEC, "tlaps", "FacetsProof.tla"), work)
+        try:
+            p = subprocess.run(["tlapm", "--threads", "8", "FacetsProof.tla"], cwd=work, stdout=subprocess.PIPE, stderr=subprocess.STDOUT, timeout=600)
+            m = re.search(r"All (\d+) obligations? proved", p.stdout.decode("utf-8", "replace"))
+            R.extra["tlaps"] = {"module": "spec/tlaps/FacetsProof.tla", "all_proved": bool(m), "obligations": int(m.group(1)) if m else 0}
+            if not m:
+                raise z.ToolError("TLAPS could not prove spec/tlaps/FacetsProof.tla")
+        except (subprocess.TimeoutExpired, FileNotFoundError) as e:
+            R.extra["tlaps"] = {"not_run": type(e).__name__}
     R.extra["exhaustive"] = True
     R.extra["anchorings_per_case"] = "up to 5 (mid, max-1, min+1, max, min of the carrier clipped to i32; skipped where a point does not fit)"
     return finish(R, "model_checking",
